@@ -3,6 +3,7 @@
 package main
 
 import (
+	"bytes"
 	"encoding/json"
 	"fmt"
 	"runtime/metrics"
@@ -202,6 +203,22 @@ func genRobustPlan(seed uint64, tier string) *Plan {
 			b.Add("X-Sim-Id", id)
 			base = Op{Kind: "hostile", ID: id, Proto: "tcp", SrcIP: "10.1.0.2", Listen: g.intn(len(p.Cfg.Listens)), Conn: "h-" + id,
 				S: map[string]string{"how": "valid-then-" + g.pick("garbage", "hangup") + "-then-answer"}}
+			data = b.Bytes()
+		}
+		if g.chance(6) {
+			// a well-formed service request over TCP that no UDP datagram can carry once the proxy's Via is on it:
+			// the write towards the UDP backend fails (EMSGSIZE); nothing but that request may be lost
+			id := g.nextID()
+			b := &sipwire.Builder{Start: "MESSAGE sip:big@svc.example.com SIP/2.0"}
+			b.Add("Via", "SIP/2.0/TCP 10.1.0.2:5060;branch=z9hG4bK"+strings.ReplaceAll(id, "-", ""))
+			b.Add("From", "<sip:a@caller.test>;tag=1")
+			b.Add("To", "<sip:big@svc.example.com>")
+			b.Add("Call-ID", "cid-"+id)
+			b.Add("CSeq", "1 MESSAGE")
+			b.Add("X-Sim-Id", id)
+			b.Body = bytes.Repeat([]byte("0123456789abcdef"), (65200+g.intn(1500))/16)
+			base = Op{Kind: "hostile", ID: id, Proto: "tcp", SrcIP: "10.1.0.2", Listen: g.intn(len(p.Cfg.Listens)), Conn: "h-" + id,
+				S: map[string]string{"how": "too-big-for-a-datagram-over-tcp"}}
 			data = b.Bytes()
 		}
 		if len(data) == 0 {
